@@ -250,7 +250,8 @@ simple('progress', '*', '=', lambda n, e: rs.ops.progress('p', n[1], measure_thr
 
 # raising asserts (only inserted explicitly by the checks that want failures) -----
 def p2_le(a, b): return a <= b + 3
-simple('assert_mod', INTLIKE, '=', lambda n, e: rs.ops.assert_(p_mod(n[1], n[2]), name='a'), lambda n, c: M.Op())
+simple('assert_mod', INTLIKE, '=', lambda n, e: rs.ops.assert_(p_mod_int(n[1], n[2]) if len(n) > 3 and n[3] == 'int' else p_mod(n[1], n[2]), name='a'),
+       lambda n, c: M.Op())
 simple('assert1_le', INTLIKE, '=', lambda n, e: rs.ops.assert_1(p2_le, name='b'), lambda n, c: M.Op(), stateful=True)
 
 
